@@ -354,6 +354,39 @@ for _cls, _tls in ((REMOTER, False), (REMOTERTLS, True), (CLIENT, False), (CLIEN
     _mk()
 
 
+def remoter_wind_contract(B, cls, tls):
+    """C12: re-winding an accepted connection (server handed to another tyme base) restarts its idle timer at the new current
+    tyme and NEVER changes the timer's duration, which stays the server's tymeout for the life of the connection"""
+    net = Net(B)
+    sock = net.sock("cs", tls)
+    self = make_remoter(B, net, sock, tls, None)
+    ctx = B.ctx
+    tm = ctx.st(ctx.st(self)["tymer"])
+    start0, stop0 = z(tm["_start"], "real"), z(tm["_stop"], "real")
+    wound = B.choice(True, False, label="already-wound")
+    if not wound:
+        tm["_tymth"] = None
+    newtyme = B.real("newtyme")
+    tymth = B.model(lambda c, a, k: newtyme, "tymth'")
+    B.call(self, tymth, qual=cls + ".wind")
+    B.no_other_exception()
+    if not B.returned():
+        return
+    tm = ctx.st(ctx.st(self)["tymer"])
+    B.prove("idle-timer-follows-the-new-tyme-base", tm["_tymth"] is tymth and ctx.st(self)["_tymth"] is tymth, top=True, props=["C12"])
+    # (not later than a fresh start at the new current tyme: the statement does not say whether idle tyme already spent carries over)
+    B.prove("idle-timer-starts-no-later-than-the-new-current-tyme", z(tm["_start"], "real") <= newtyme.t, top=True, props=["C12"])
+    B.prove("idle-timer-duration-never-changes", z(tm["_stop"], "real") - z(tm["_start"], "real") == stop0 - start0, top=True, props=["C12"])
+
+
+for _cls, _tls in ((REMOTER, False), (REMOTERTLS, True)):
+    def _mkw(cls=_cls, tls=_tls):
+        @contract(cls + ".wind", props=["C12"], name=cls + ".wind")
+        def _w(B):
+            remoter_wind_contract(B, cls, tls)
+    _mkw()
+
+
 # ------------------------------------------------------------------------------------------- tx / serviceSends / serviceReceives
 
 def service_sends_contract(B, cls, tls):
